@@ -144,7 +144,7 @@ Plan generate(Rng &rng, const Opts &opts, uint64_t)
         ++sid;
         if (ms.empty() || r < 22) {
             if (rng.chance(1, 6)) {
-                p.steps.push_back(mk(t, "BUILD", {sid, long(rng.below(1000)), long(rng.below(3) == 0)}));
+                p.steps.push_back(mk(t, "BUILD", {sid, long(rng.below(1000)), long(rng.below(2) == 0 ? 1 + rng.below(2) : 0)}));
                 docOf[sid] = -1;
             } else {
                 long d = docs[rng.below(docs.size())];
@@ -401,6 +401,29 @@ void execute(const Plan &plan, Ctx &ctx)
                     }
                 }
                 ctx.count("purity_build_duplicate_reset_orders");
+            } else if (s.arg(2) == 2) {
+                // two components with pairwise connected variables; the analysis is later asked to treat the
+                // non-primary member of each pair as external: one message per pair, and nothing but the model
+                // should decide in which order
+                model = Model::create("external_order");
+                auto a = Component::create("A"), b = Component::create("B");
+                model->addComponent(a);
+                model->addComponent(b);
+                long nv = 2 + long(mr.below(3));
+                std::string math = "<math xmlns=\"http://www.w3.org/1998/Math/MathML\" xmlns:cellml=\"http://www.cellml.org/cellml/2.0#\">";
+                for (long i = 0; i < nv; ++i) {
+                    auto va = Variable::create("a" + str(i)), vb = Variable::create("b" + str(i));
+                    for (auto &v : {va, vb}) {
+                        v->setUnits("dimensionless");
+                        v->setInterfaceType("public");
+                    }
+                    a->addVariable(va);
+                    b->addVariable(vb);
+                    Variable::addEquivalence(va, vb);
+                    math += "<apply><eq/><ci>a" + str(i) + "</ci><cn cellml:units=\"dimensionless\">" + str(i + 1) + "</cn></apply>";
+                }
+                a->setMath(math + "</math>");
+                ctx.count("purity_build_external_order_model");
             } else {
                 model = genModel(mr, go);
             }
@@ -496,9 +519,13 @@ void execute(const Plan &plan, Ctx &ctx)
                 std::vector<ComponentPtr> comps;
                 allComponents(it->second, comps);
                 long added = 0;
+                bool nonPrimary = it->second->name() == "external_order"; // mark the connected variables of component B
                 for (auto &c : comps) {
-                    for (size_t k = 0; k < c->variableCount() && added < nExt; ++k) {
-                        if (c->variable(k)->equivalentVariableCount() == 0 && c->variable(k)->initialValue().empty()) {
+                    if (nonPrimary && c->name() != "B") {
+                        continue;
+                    }
+                    for (size_t k = 0; k < c->variableCount() && (added < nExt || nonPrimary); ++k) {
+                        if (nonPrimary || (c->variable(k)->equivalentVariableCount() == 0 && c->variable(k)->initialValue().empty())) {
                             a->addExternalVariable(AnalyserExternalVariable::create(c->variable(k)));
                             ext += c->name() + "." + c->variable(k)->name() + ";";
                             ++added;
